@@ -59,6 +59,12 @@ type hOpDef struct {
 	write bool
 }
 
+// name patterns for MkdirTemp: plain ones (any bytes but the separator; the digits go to the LAST
+// '*', or to the end) and ones with path separators / '..' segments (at most one level up when
+// taken raw)
+var c13TempPatternsPlain = []string{"t", "t*", "*", "", "pre-*-suf", "a*b*c", "..*", ".*", "*..", "é*", "**", "x *y", "\\*"}
+var c13TempPatternsSep = []string{"../esc-*", "../outdir/esc-*", "a/../../esc-*", "sub/t*", "a/t*", "/t*", "t*/", "./t*", "*/../../esc", "../*", "a/b/../../../outdir/e*", "..//esc*"}
+
 var c13HandedOps = []hOpDef{
 	{"Mkdir", "access", true}, {"MkdirAll", "access", true}, {"Stat", "access", false}, {"ReadFile", "access", false},
 	{"ReadDir", "access", false}, {"Remove", "access", true}, {"RemoveAll", "access", true}, {"WriteFile", "access", true},
@@ -339,6 +345,28 @@ func c13HandedSession(e *Env, rng *RNG, chdirTo, baseSpelling string, steps int)
 			op = c13HandedOps[2] // Stat
 			e.R.H("handed_guard", "write replaced by Stat: the raw string names a host path outside the temporary tree")
 		}
+		// MkdirTemp's second string, the name PATTERN, is the one script-controlled string that is
+		// not resolved: mostly plain patterns (with and without '*'), often patterns with path
+		// separators and '..' segments (os.MkdirTemp refuses them: C13.tempName).  Taken raw and
+		// joined to the directory such a pattern climbs at most one level (the pool), and the guard
+		// keeps the result inside the temporary tree.
+		pattern, patSep := "", false
+		if op.kind == "mkdirtemp" {
+			if rng.Chance(45) {
+				pattern = Pick(rng, c13TempPatternsSep)
+			} else {
+				pattern = Pick(rng, c13TempPatternsPlain)
+			}
+			dirRaw := p
+			if p == "" {
+				dirRaw = stored
+			}
+			if rawOutside(filepath.Join(abs(dirRaw), pattern)) || rawOutside(filepath.Join(abs(stored), pattern)) {
+				pattern = "t*"
+				e.R.H("handed_guard", "pattern replaced by t*: joined raw it names a host path outside the temporary tree")
+			}
+			patSep = strings.ContainsRune(pattern, '/')
+		}
 		via := op.kind != "mkdirtemp" && rng.Chance(25)
 		var tgt ros.FS = lfs
 		call := op.name + "(" + sym(a1)
@@ -348,6 +376,9 @@ func c13HandedSession(e *Env, rng *RNG, chdirTo, baseSpelling string, steps int)
 		}
 		if op.kind == "access2" {
 			call += ", " + sym(a2)
+		}
+		if op.kind == "mkdirtemp" {
+			call += fmt.Sprintf(", pattern %q", pattern)
 		}
 		call += ")"
 		// the definitions of the handed-out paths the call refers to, and the last calls
@@ -425,7 +456,7 @@ func c13HandedSession(e *Env, rng *RNG, chdirTo, baseSpelling string, steps int)
 			rerr = tgt.Symlink(p, q)
 		case "MkdirTemp":
 			var res string
-			res, rerr = lfs.MkdirTemp(p, "t")
+			res, rerr = lfs.MkdirTemp(p, pattern)
 			if rerr == nil {
 				newHanded = append(newHanded, res)
 			}
@@ -474,10 +505,38 @@ func c13HandedSession(e *Env, rng *RNG, chdirTo, baseSpelling string, steps int)
 		kind := op.kind
 		switch op.kind {
 		case "mkdirtemp":
-			extra = Hex("t0")
-			if rerr == nil {
-				extra = Hex(filepath.Base(newHanded[0]))
+			// the model gets the caller's pattern and the digits the operating system generated
+			// (C13.tempName puts them at the last '*', or at the end)
+			kind = "mkdirtempp"
+			rnd := "0"
+			if patSep {
+				e.R.H("handed_pattern", "with a path separator")
+			} else {
+				e.R.H("handed_pattern", "plain")
 			}
+			if rerr == nil && !patSep {
+				pre, suf := pattern, ""
+				if i := strings.LastIndexByte(pattern, '*'); i >= 0 {
+					pre, suf = pattern[:i], pattern[i+1:]
+				}
+				name := filepath.Base(newHanded[0])
+				if len(name) >= len(pre)+len(suf) && strings.HasPrefix(name, pre) && strings.HasSuffix(name, suf) {
+					rnd = name[len(pre) : len(name)-len(suf)]
+				} else {
+					e.R.Mismatch(c, show(newHanded[0]), "a name made of the pattern's two parts around generated digits", "localfs.MkdirTemp: generated name vs C13.tempName")
+				}
+				digits := rnd != ""
+				for _, ch := range rnd {
+					if ch < '0' || ch > '9' {
+						digits = false
+					}
+				}
+				if !digits {
+					e.R.Mismatch(c, fmt.Sprintf("generated part %q", rnd), "a non-empty string of decimal digits", "localfs.MkdirTemp: the generated part of the name is not what LOp.WF assumes")
+					rnd = "0"
+				}
+			}
+			extra = Hex(rnd)
 		case "walk":
 			// the entries below the model's host path, from a walk of our own
 			r0 := strings.Split(e.O.Ask("C13", "lstep", Hex(stored), hHexList(handed), "access", a1spec, "x", "x"), "\t")
@@ -498,6 +557,9 @@ func c13HandedSession(e *Env, rng *RNG, chdirTo, baseSpelling string, steps int)
 		if op.kind == "access2" {
 			a2spec = a2spec0
 		}
+		if op.kind == "mkdirtemp" {
+			a2spec = Hex(pattern)
+		}
 		rep := strings.Split(e.O.Ask("C13", "lstep", Hex(stored), hHexList(handed), kind, a1spec, a2spec, extra), "\t")
 		if len(rep) != 3 {
 			e.R.Mismatch(c, "-", strings.Join(rep, " "), "oracle reply malformed")
@@ -509,7 +571,16 @@ func c13HandedSession(e *Env, rng *RNG, chdirTo, baseSpelling string, steps int)
 		e.R.H("handed_model", rep[0])
 
 		// ---- Code vs Impl
-		if modelInvalid != hInvalid(rerr) {
+		if op.kind == "mkdirtemp" && patSep {
+			// a pattern with a separator: the model refuses (C13.tempName = none); Go answers with
+			// os.MkdirTemp's own error (not fs.ErrInvalid) or, for a bad directory, with fs.ErrInvalid
+			if !modelInvalid {
+				e.R.Mismatch(c, "-", rep[0], "C13.lstep accepted a MkdirTemp pattern with a path separator")
+			}
+			if rerr == nil {
+				e.R.Mismatch(c, "succeeded: "+show(strings.Join(newHanded, ", ")), "refused: the pattern contains a path separator", "localfs.MkdirTemp: pattern with a path separator vs C13.tempName")
+			}
+		} else if modelInvalid != hInvalid(rerr) {
 			e.R.Mismatch(c, fmt.Sprintf("err=%v", rerr), rep[0], "localfs: refusal with fs.ErrInvalid vs C13.localResolve")
 		}
 		if !modelInvalid {
